@@ -8,6 +8,12 @@
  *     iowrite cnt part hex | ioread cnt part | iopeek n | ionew n
  *   encode_queue without encoder ("raw throughput"), first operation starts with 'e'
  *     epush hex | efin | erev | etrim n          token <out>|<contents>|<max>|<done>,<scratch>
+ *   decode_queue without decoder ("raw message mode"), first operation is dset
+ *     dset curr pos len msg ctx   install a decoder state (msg = -1: no message delivered)
+ *     drecv | dpeek max h | dshift   mpt_queue_recv / mpt_queue_peek(max, h ? buffer : NULL) / mpt_queue_shift
+ *     dadv | dcur h                  decode_queue::advance / current_message(msg, h ? &vec : 0) + read all of it
+ *     and the C operations of c13_ops.h on the embedded queue (data arriving, data taken away)
+ *                                    token <out>|<contents>|<max>|<curr>,<pos>,<len>,<msg>
  *   encode_queue(COBS) -> decode_queue(COBS), first operation is xround
  *     xround hex    push + terminate a message, hand the finished bytes over (trim), advance,
  *                   current_message, read it, advance until nothing is offered any more
@@ -146,6 +152,67 @@ static void run_enc(int ntok, char **tok)
 	delete e;
 }
 
+/* ---- decode_queue without decoder ---- */
+static void run_dec(int ntok, char **tok)
+{
+	DecQ *d = new DecQ;
+	int t = 4;
+	c13_init(d, tok);
+	while (t < ntok) {
+		const char *op = tok[t++];
+		if (c13_c_op(d, op, tok, &t)) { }
+		else if (!strcmp(op, "dset")) {
+			decode_state *st = d->st();
+			st->curr = vh_int(tok[t++]);
+			st->data.pos = vh_int(tok[t++]);
+			st->data.len = vh_int(tok[t++]);
+			st->data.msg = vh_int(tok[t++]);
+			st->_ctx = vh_int(tok[t++]);
+			vh_tok("D");
+		}
+		else if (!strcmp(op, "drecv")) {
+			tok_count(mpt_queue_recv(d), 0, 0);
+		}
+		else if (!strcmp(op, "dpeek")) {
+			size_t max = vh_int(tok[t++]);
+			int hd = vh_int(tok[t++]);
+			uint8_t *b = hd ? (uint8_t *) malloc(max ? max : 1) : 0;
+			ssize_t r;
+			if (b) memset(b, 0xdd, max ? max : 1);
+			r = mpt_queue_peek(d, max, b);
+			if (r < 0) vh_tok("R");
+			else if (!b) tok_count(r, 0, 0);
+			else { vh_tok("B:"); vh_hex(b, r); }
+			free(b);
+		}
+		else if (!strcmp(op, "dshift")) {
+			mpt_queue_shift(d);
+			vh_tok("D");
+		}
+		else if (!strcmp(op, "dadv")) {
+			vh_tok(d->advance() ? "D" : "R");
+		}
+		else if (!strcmp(op, "dcur")) {
+			int hv = vh_int(tok[t++]);
+			message msg;
+			struct iovec vec;
+			if (!d->current_message(msg, hv ? &vec : 0)) vh_tok("R");
+			else {
+				size_t len = msg.length();
+				uint8_t *b = (uint8_t *) malloc(len ? len : 1);
+				if (msg.read(len, b) != len) vh_tok("R:read");
+				else { vh_tok("B:"); vh_hex(b, len); }
+				free(b);
+			}
+		}
+		else { vh_tok("?%s", op); break; }
+		c13_dump(d);
+		vh_add("|%zu,%zu,%zu,%zd", d->st()->curr, d->st()->data.pos, d->st()->data.len, d->st()->data.msg);
+	}
+	mpt_queue_resize(d, 0);
+	delete d;
+}
+
 /* ---- coded round trip ---- */
 static void run_round(int ntok, char **tok)
 {
@@ -213,6 +280,7 @@ static void run_round(int ntok, char **tok)
 static void run_case(int ntok, char **tok)
 {
 	if (ntok > 4 && !strcmp(tok[4], "xround")) run_round(ntok, tok);
+	else if (ntok > 4 && !strcmp(tok[4], "dset")) run_dec(ntok, tok);
 	else if (ntok > 4 && tok[4][0] == 'e') run_enc(ntok, tok);
 	else run_io(ntok, tok);
 }
